@@ -104,6 +104,21 @@ def run(ctx):
             walked = [r["obj"] for r in roots if r["walk"]]
             order = sc.enum_random(walked, rng)
             names = rng.choice(["full", "none"])
+            if sc.refs and it % 3 == 0:
+                # a ROOT argument spelled as the full name of a reference, together with an option that walks that very
+                # reference (or whatever options were drawn): it is one more root, whatever it names
+                rn, rx = rng.choice(sorted(sc.refs))
+                try:
+                    spelled = rn.decode("utf-8")
+                except UnicodeDecodeError:
+                    spelled = None
+                if spelled is not None and not spelled.startswith("-"):
+                    explicit = list(explicit) + [(spelled, rx)]
+                    if not args:
+                        args, opts = ["--include=" + spelled], [(True, "prefix", rn)]
+                    roots = SC.build_roots(sc, opts, explicit)
+                    walked = [r["obj"] for r in roots if r["walk"]]
+                    order = sc.enum_random(walked, rng)
             rc1, out1, err1, _ = eng.run_fake(sc, order, args, explicit, extra_args=["--json", "--progress", "--names=" + names])
             rc2, out2, err2, _ = eng.run_fake(sc, order, args, explicit, extra_args=["--json", "--no-progress", "--names=" + names])
             inp = {"args": args, "roots": [x for x, _ in explicit], "fakegit_scenario": sc.fakegit_json(order, resolve={sp: x for sp, x in explicit})}
